@@ -38,7 +38,7 @@ func RunChunk(ev *eval.Evaler, ch *Node) (Event, error) {
 	if err != nil {
 		return Event{}, fmt.Errorf("renderer defect: %v", err)
 	}
-	o := elv.RunCtx(ev, src, nil, 30*time.Second)
+	o := elv.RunCtx(ev, src, nil, 180*time.Second) // generous: only turns a hang into exit 2
 	if o.Timeout {
 		return Event{}, fmt.Errorf("evaluation of a bounded program did not finish: %s", src)
 	}
